@@ -130,6 +130,27 @@ def parse_fatal(out):
             "cls": "harness" if harness else ("protected" if prot else "other"), "n": 1, "fatal": True}
 
 
+def parse_crash(out):
+    """An unrecovered panic / fatal error that killed the test process. -> {what, at, fn, text, harness} or None."""
+    m = re.search(r"^(panic|fatal error): (.*)\n(?:.*\n)*?\n?goroutine \d+ \[running[^\]]*\]:\n((?:.+\n)+)", out, re.M)
+    if not m:
+        return None
+    fr = re.findall(r"^(\S+)\(.*\)\n\t(\S+):(\d+)", m.group(3), re.M)
+    top = None
+    for fn, path, ln in fr:
+        if fn.startswith(("runtime.", "sync.", "internal/", "panic", "log.", "testing.")) or "/logs." in fn:
+            continue
+        top = (fn, path, int(ln))
+        break
+    if top is None:
+        return None
+    fn, path, ln = top
+    return {"what": (m.group(1) + ": " + m.group(2))[:160], "at": "%s:%d" % (os.path.basename(path), ln),
+            "fn": fn.replace("github.com/tinode/chat/server.", ""), "text": src_line(path, ln).strip()[:120],
+            "harness": "zz_verif" in path or "/memadp/" in path or "verif_hook" in path,
+            "stack": [f[0].replace("github.com/tinode/chat/server.", "") for f in fr[:8]]}
+
+
 # ---------------------------------------------------------------------------------------------- vectors
 def norm_ev(e):
     return {"e": e.get("e", ""), "seq": e.get("seq", 0), "g": e.get("g", 0), "id": e.get("id", "") or "", "kind": e.get("k", "") or "",
@@ -511,15 +532,33 @@ def run(ctx):
                         "rule": "U1 Attach.tla as intended; E2 process died of a runtime-detected unsynchronised map access: only the race reports were judged",
                         "race_reports": {"protected": [r for r in races if r["cls"] == "protected"]}})
         return ctx.finish(level="model_checking", samples=vectors[:2])
+    # an unrecovered panic in SERVER code while the histories run (e.g. boundedWaitGroup.Done before Add) is an observation too:
+    # the completed runs are judged as usual (the recorder flushes after every run) and the crash is one more vector
+    crash = parse_crash(out) if not m else None
+    if crash and crash["harness"]:
+        crash = None
     # the race detector makes `go test` fail when it reported something: that is an observation, not an infrastructure failure
-    if not m or (rc != 0 and "WARNING: DATA RACE" not in out) or "panic:" in out or "[build failed]" in out:
-        sys.stdout.write(out[-8000:])
+    if (not m and not crash) or (m and rc != 0 and "WARNING: DATA RACE" not in out) or "[build failed]" in out or (m and "panic:" in out):
+        i = max(out.find("panic:"), out.find("fatal error:"))
+        if i >= 0:
+            sys.stdout.write(out[max(0, i - 200):i + 4000] + "\n...\n")
+        sys.stdout.write(out[-6000:])
         raise vlib.Infra("harness go test failed (rc=%d) - build error or harness problem, not a verdict" % rc)
+    records = []
+    if os.path.exists(rec_path):
+        with open(rec_path) as fh:
+            for line in fh:
+                try:
+                    records.append(json.loads(line))
+                except ValueError:
+                    pass      # the line that was being written when the process died
+    if crash:
+        vlib.log("E2: the server process died after %d recorded runs: %s at %s (%s)" % (len(records), crash["what"], crash["at"], crash["fn"]))
+        m = re.match(r"(\d+) (\d+) (\d+)", "%d %d 0" % (len(records), sum(1 for r in records if r.get("hung"))))
     nruns = int(m.group(1))
-    if nruns < (20 if not thorough else 200):
+    if nruns < (20 if not thorough else 200) and not crash:
         raise vlib.Infra("E2 recorded only %d runs" % nruns)
     races = parse_races(out)
-    records = vlib.read_ndjson(rec_path)
     vlib.log("E2: %d runs (%d with a hang) in %.1fs; race reports: %d distinct (%s)" % (
         nruns, int(m.group(2)), wall, len(races), dict(collections.Counter(r["cls"] for r in races))))
 
@@ -536,6 +575,9 @@ def run(ctx):
             continue
         vectors.append({"k": "race", "protected": r["cls"] == "protected", "a": r["a"], "b": r["b"]})
         owner_of.append(r)
+    if crash:
+        vectors.append({"k": "crash", "what": crash["what"], "at": crash["at"], "fn": crash["fn"]})
+        owner_of.append(crash)
     vlib.write_ndjson(os.path.join(ctx.specdir, "c14_vectors.ndjson"), vectors)
     r2, fails, divs = vlib.run_vector_monitor(ctx, "Monitor_C14", "c14_vectors.ndjson", timeout=1500)
     vlib.log("monitors: %d vectors, %d with monitor failures, %d divergences, %.1fs" % (len(vectors), len(fails), len(divs), r2.wall))
@@ -546,6 +588,11 @@ def run(ctx):
         for mon in mons:
             if v["k"] == "race":
                 ctx.fail(mon, {"race": own}, site="%s|%s" % (own["a"], own["b"]), input_class="protected_data")
+                nfail[mon] += 1
+                continue
+            if v["k"] == "crash":
+                ctx.fail(mon, {"crash": own, "runs_completed_before": len(records)}, site="%s %s" % (own["at"], own["fn"]),
+                         input_class=re.sub(r"0x[0-9a-f]+|\d+", "N", own["what"])[:80])
                 nfail[mon] += 1
                 continue
             ds = describe(own, v, mon)
